@@ -94,9 +94,13 @@ def cfg_env(cfg):
     tg = []
     cl = []
     for k, tr in sorted(cfg.get("trig", {}).items()):
-        if tr.get("filter") is not None:
-            fl.append(("" if tr["filter"] else "!") + pat(k))
         acts = []
+        if tr.get("filter") is not None:
+            # -F f / -N f, or the same thing spelled as a trigger action (-T f@filter / -T f@notrace)
+            if tr.get("as_action"):
+                acts.append("filter" if tr["filter"] else "notrace")
+            else:
+                fl.append(("" if tr["filter"] else "!") + pat(k))
         if tr.get("depth") is not None:
             acts.append("depth=%d" % tr["depth"])
         if tr.get("time") is not None:
